@@ -57,6 +57,7 @@ def main():
     ap.add_argument("--prop")
     ap.add_argument("--seed", type=int, default=1)
     ap.add_argument("--jobs", type=int, default=1)
+    ap.add_argument("--store", action="store_true", help="merge the results into findings/mutant_results.json")
     a = ap.parse_args()
     sel = MUTANTS
     if a.only:
@@ -71,6 +72,16 @@ def main():
         caught += bool(ok)
         print(("CAUGHT " if ok else "MISSED ") + json.dumps(r))
         sys.stdout.flush()
+        if a.store:
+            path = os.path.join(VERIF, "findings", "mutant_results.json")
+            try:
+                allr = json.load(open(path))
+            except Exception:
+                allr = {}
+            allr[m["id"]] = dict(props=m["props"], file=m["file"], caught=bool(ok), equivalent=m.get("equivalent"), tier=a.tier, seed=a.seed,
+                                 suite_rc=r.get("suite_rc"), checks=dict((k, dict(rc=v["rc"], sigs=[x.replace("signature: ", "") for x in v["sigs"]])) for k, v in (r.get("props") or {}).items()),
+                                 error=r.get("error"))
+            json.dump(allr, open(path, "w"), indent=1, sort_keys=True)
     print("caught %d of %d" % (caught, len(sel)))
 
 
